@@ -47,6 +47,10 @@ func main() {
 		c19oracle(args)
 	case "rxeval":
 		rxeval(args)
+	case "corr":
+		corr(args)
+	case "loop":
+		loopMode(args)
 	default:
 		fmt.Fprintln(os.Stderr, "unknown subcommand", cmd)
 		os.Exit(2)
